@@ -74,6 +74,8 @@ type BatchedWriter struct {
 	store          KVStore
 	writeWg        sync.WaitGroup
 	startStopMutex syncutils.Mutex
+	// enqueueMutex makes Enqueue (running check + counting + queue send) atomic with respect to StopBatchWriter.
+	enqueueMutex   syncutils.RWMutex
 	autoStartOnce  sync.Once
 	running        atomic.Bool
 	scheduledCount atomic.Int32
@@ -120,7 +122,12 @@ func (bw *BatchedWriter) startBatchWriter() {
 func (bw *BatchedWriter) StopBatchWriter() {
 	bw.startStopMutex.Lock()
 	if bw.running.Load() {
+		// wait for the Enqueue calls that already passed the running check: the writer is still draining the
+		// queue at this point, so they complete. An object that is counted and queued after the writer has left
+		// would never be written, and a further Enqueue could block forever on the full queue.
+		bw.enqueueMutex.Lock()
 		bw.running.Store(false)
+		bw.enqueueMutex.Unlock()
 
 		bw.writeWg.Wait()
 	}
@@ -135,6 +142,9 @@ func (bw *BatchedWriter) Enqueue(object BatchWriteObject) {
 			bw.startBatchWriter()
 		}
 	})
+
+	bw.enqueueMutex.RLock()
+	defer bw.enqueueMutex.RUnlock()
 
 	// abort if the BatchWriter has been stopped
 	if !bw.running.Load() {
@@ -164,7 +174,6 @@ func (bw *BatchedWriter) Flush() {
 
 // runBatchWriter collects objects in batches and persists them to the KVStore.
 func (bw *BatchedWriter) runBatchWriter() {
-
 	for bw.running.Load() || bw.scheduledCount.Load() != 0 {
 		batchedMutation, err := bw.store.Batched()
 		if err != nil {
